@@ -35,6 +35,10 @@ func (g *Gen) pickDt() string {
 
 func (g *Gen) pickShape(maxRank int) []int {
 	rank := g.r.Intn(maxRank + 1)
+	if maxRank >= 4 && g.r.Intn(18) == 0 {
+		// high ranks: 8 is the largest size class of the ints pool, 9 bypasses it
+		rank = 5 + g.r.Intn(5)
+	}
 	s := make([]int, rank)
 	for i := range s {
 		s[i] = 1 + g.r.Intn(4)
